@@ -193,6 +193,7 @@ def registry() -> Dict[str, Check]:
     reg["C11"] = Check(
         "C11", {"C11"},
         [Batch("A-callbacks", gen_a.gen_world, 5000, 60000, driver="A", budget_s=90.0, profile="callbacks"),
+         Batch("B-mix", gen_b.gen_history, 6000, 100000, driver="B", profile="mix"),
          Batch("A-scale", gen_a.gen_scale, 12, 240, driver="A", budget_s=900.0, profile="scale"),
          Batch("A-long", gen_a.gen_long, 400, 8000, driver="A", budget_s=300.0, profile="world:callbacks")],
         plugins=lambda: [oracles_a.CallbackPlugin()],
